@@ -305,6 +305,7 @@ func initKeys() {
 type gen struct {
 	r   *rand.Rand
 	big bool // allow 64 KiB values in this case
+	bigLeft int
 }
 
 func (g *gen) rbytes(n int) []byte {
@@ -325,7 +326,8 @@ func (g *gen) size() int {
 	case 1:
 		return boundarySizes[g.r.Intn(len(boundarySizes))]
 	case 2:
-		if g.big {
+		if g.big && g.bigLeft > 0 { // at most one 64 KiB value per case: keeps the replay time of one case bounded
+			g.bigLeft--
 			return []int{65535, 65536, 70000}[g.r.Intn(3)]
 		}
 		return 1
@@ -383,7 +385,10 @@ func (g *gen) duration(wf *bool) *time.Duration {
 		return nil
 	}
 	d := time.Duration(msBoundaries[g.r.Intn(len(msBoundaries))]) * time.Millisecond
-	if g.r.Intn(25) == 0 { // outside the domain of the wire format: fractional or negative
+	if g.r.Intn(12) == 0 { // negative whole milliseconds: wraps through uint64 and back (still in the theorem's domain)
+		d = -d
+	}
+	if g.r.Intn(25) == 0 { // outside the domain of the wire format: a fraction of a millisecond
 		*wf = false
 		if g.r.Intn(2) == 0 {
 			d = d/2 + 1
@@ -1179,6 +1184,7 @@ func TestTrace(t *testing.T) {
 	}
 	for i := 0; i < n; i++ {
 		g.big = i%97 == 13
+		g.bigLeft = 1
 		tr.line("# case %d", i)
 		if i%2 == 0 {
 			tr.dataCase(g, i)
